@@ -167,7 +167,7 @@ def get_scope_name(node):
         sc = sc.parent.scope() if sc.parent else None
 
     if isinstance(node, nodes.FunctionDef) or (
-        isinstance(node, nodes.Name)
+        isinstance(node, (nodes.Name, nodes.Attribute))
         and isinstance(node.parent, nodes.Call)
         and node == node.parent.func
     ):
